@@ -604,6 +604,44 @@ pub fn round_c03(rt: &tokio::runtime::Runtime, hooks: &Hooks, seed: u64) -> Valu
     let mut rx = rt.block_on(store.read(opts));
     let t1 = us(base);
     go.store(true, Ordering::SeqCst);
+    // more followers opened while the appenders are at work (the append lock is contended then)
+    let mut extra = vec![];
+    for _ in 0..3 {
+        let delay_us = rng.range(0, 5000);
+        let escope: Option<Scru128Id> = if rng.chance(500) { Some(ctx_a) } else { None };
+        let estart: Option<u128> = if rng.chance(500) && hist_ids.len() > 3 { Some(hist_ids[rng.below(hist_ids.len())].0) } else { None };
+        let store = store.clone();
+        let h = rt.spawn(async move {
+            tokio::time::sleep(Duration::from_micros(delay_us)).await;
+            let opts = ReadOptions::builder().follow(FollowOption::On).maybe_last_id(estart.map(Scru128Id::from)).maybe_context_id(escope).build();
+            let mut rx = store.read(opts).await;
+            let mut got: Vec<Frame> = vec![];
+            loop {
+                match tokio::time::timeout(Duration::from_secs(30), rx.recv()).await {
+                    Ok(Some(f)) => {
+                        let done = f.topic == "sentinel" && f.context_id == ctx_a;
+                        got.push(f);
+                        if done {
+                            if !got.iter().any(|f| f.topic == "xs.threshold") {
+                                // the sentinel was already history for this follower: the threshold follows it
+                                while let Ok(Some(f)) = tokio::time::timeout(Duration::from_secs(5), rx.recv()).await {
+                                    let th = f.topic == "xs.threshold";
+                                    got.push(f);
+                                    if th {
+                                        break;
+                                    }
+                                }
+                            }
+                            return (got, "sentinel");
+                        }
+                    }
+                    Ok(None) => return (got, "closed"),
+                    Err(_) => return (got, "timeout"),
+                }
+            }
+        });
+        extra.push((escope, estart, h));
+    }
     let store2 = store.clone();
     let recv_task = rt.spawn(async move {
         let mut got: Vec<Frame> = vec![];
@@ -638,7 +676,10 @@ pub fn round_c03(rt: &tokio::runtime::Runtime, hooks: &Hooks, seed: u64) -> Valu
     let (entered, blocked, class, _mc, hits) = hooks.disarm();
     let sentinel_ctx = scope.unwrap_or(ZERO_CONTEXT);
     let sent = store2.append(Frame::builder("sentinel", sentinel_ctx).build()).unwrap();
+    let sent_a = if sentinel_ctx == ctx_a { sent.clone() } else { store2.append(Frame::builder("sentinel", ctx_a).build()).unwrap() };
     let (got, how) = rt.block_on(async { recv_task.await.unwrap() });
+    let extra_results: Vec<(Option<Scru128Id>, Option<u128>, Vec<Frame>, &'static str)> =
+        extra.into_iter().map(|(sc, st, h)| { let (g, how) = rt.block_on(async { h.await.unwrap() }); (sc, st, g, how) }).collect();
 
     let mut out: Vec<Value> = vec![];
     let mut inconclusive = None;
@@ -691,7 +732,10 @@ pub fn round_c03(rt: &tokio::runtime::Runtime, hooks: &Hooks, seed: u64) -> Valu
         violation(&mut out, &["C03", "C11"], "follow/stream-ended-while-following-without-limit", json!({"round": d, "received": rid.len()}));
     }
     if how == "sentinel" {
-        let must: Vec<u128> = if tail { q.iter().copied().collect() } else { p.union(&q).copied().collect() };
+        // stored frames must arrive whenever they were appended relative to read(); only ephemeral
+        // frames (and, with tail, everything) whose append overlapped the call are optional
+        let u_stored: BTreeSet<u128> = u.iter().copied().filter(|i| !eph.contains(i)).collect();
+        let must: Vec<u128> = if tail { q.iter().copied().collect() } else { p.union(&q).copied().chain(u_stored.iter().copied()).collect() };
         let missing: Vec<u128> = must.iter().copied().filter(|i| !rset.contains(i)).collect();
         if !missing.is_empty() {
             let from_p = missing.iter().filter(|i| p.contains(i)).count();
@@ -747,6 +791,54 @@ pub fn round_c03(rt: &tokio::runtime::Runtime, hooks: &Hooks, seed: u64) -> Valu
             violation(&mut out, &["C11"], "follow/pulse-without-heartbeat-option", json!({"round": d}));
         }
     }
+    // the followers opened under contention: every stored in-scope frame after the start, once, in order
+    let mut extra_frames = 0u64;
+    for (escope, estart, egot, ehow) in &extra_results {
+        let ed = json!({"round": d, "extra_follower": {"scope": escope.map(|s| s.to_string()), "last_id": estart.map(crate::model::id_str), "ended": ehow}});
+        if *ehow != "sentinel" {
+            if *ehow == "timeout" {
+                inconclusive = Some("an extra follower did not reach its sentinel within 30 s".to_string());
+            } else {
+                violation(&mut out, &["C03"], "follow/stream-ended-while-following-without-limit", ed.clone());
+            }
+            continue;
+        }
+        let in_sc = |ctx: u128| escope.map(|s| s.to_u128() == ctx).unwrap_or(true);
+        let mut want: BTreeSet<u128> = BTreeSet::new();
+        for (id, ctx) in &hist_ids {
+            if in_sc(*ctx) && !removed.contains(id) {
+                want.insert(*id);
+            }
+        }
+        for a in &acks_v {
+            if in_sc(a.ctx) && !a.ephemeral {
+                want.insert(a.id);
+            }
+        }
+        if in_sc(sent.context_id.to_u128()) {
+            want.insert(sent.id.to_u128());
+        }
+        want.insert(sent_a.id.to_u128());
+        if let Some(st) = estart {
+            want.retain(|i| *i > *st);
+        }
+        let real: Vec<u128> = egot.iter().filter(|f| !is_synth(f)).map(|f| f.id.to_u128()).collect();
+        extra_frames += real.len() as u64;
+        let rs: BTreeSet<u128> = real.iter().copied().collect();
+        if let Some(w) = real.windows(2).find(|w| w[1] <= w[0]) {
+            violation(&mut out, &["C03", "C02"], if w[1] == w[0] { "follow/frame-delivered-twice" } else { "follow/ids-not-increasing" }, json!({"case": ed, "pair": ids(w)}));
+        }
+        let missing: Vec<u128> = want.iter().copied().filter(|i| !rs.contains(i)).collect();
+        if !missing.is_empty() {
+            violation(&mut out, &["C03"], "follow/stored-frame-not-delivered", json!({"case": ed, "missing": ids(&missing[..missing.len().min(5)]), "missing_count": missing.len(), "delivered": real.len()}));
+        }
+        if let Some(f) = egot.iter().find(|f| !is_synth(f) && (!in_sc(f.context_id.to_u128()) || estart.map(|s| f.id.to_u128() <= s).unwrap_or(false) || removed.contains(&f.id.to_u128()))) {
+            violation(&mut out, &["C03", "C06"], "follow/frame-outside-scope-or-range", json!({"case": ed, "frame": f}));
+        }
+        if egot.iter().filter(|f| f.topic == "xs.threshold").count() != 1 {
+            violation(&mut out, &["C03"], "follow/threshold-count-wrong", json!({"case": ed, "thresholds": egot.iter().filter(|f| f.topic == "xs.threshold").count(), "expected": 1}));
+        }
+    }
     // stored-state side: synthetic frames are never stored
     let stored_synth = store2.read_sync(None, None, None).filter(|f| is_synth(f)).count();
     if stored_synth > 0 {
@@ -758,7 +850,7 @@ pub fn round_c03(rt: &tokio::runtime::Runtime, hooks: &Hooks, seed: u64) -> Valu
         "mode": "c03",
         "seed": seed,
         "config": d,
-        "frames": rid.len(),
+        "frames": rid.len() as u64 + extra_frames,
         "window_hits": u.len(),
         "delivered_from_window": both,
         "window_entered": entered,
